@@ -268,7 +268,7 @@ for variant, fst in (('', KeySet), ('#list', KeyList)):
        implements='Imputer.impute' + variant, ret=PredList, modifies=[], local_types={'predictions': PredList},
        lemmas=_ext_lemmas,
        callee_variants={'Imputer._sample': 'Imputer._sample' + variant},
-       ghost_out={'zs': (XList, lambda c: c.run.last_loop.g.zs.t)},
+       ghost_out={'zs': (XList, lambda c: c.run.last_loop.g.zs.t if c.run.last_loop is not None else XList.empty())},
        counts={'model': lambda c: c.a.n_samples},
        ensures={
            # inside the subset: the value that feature has in a currently stored observation
@@ -291,3 +291,9 @@ for variant, fst in (('', KeySet), ('#list', KeyList)):
                'frame': lambda l: land(l.v.x_i.t == l.a.x_i.t, l.v.feature_subset.t == l.a.feature_subset.t,
                                        l.self.storage_object.term == l.entry_self.storage_object.term),
            })])
+
+
+# isinstance on the union record: decided by the ghost kind
+CLASSES['Imputer'].isinstance_map = {
+    'DefaultImputer': lambda s: s.kind == 0, 'MarginalImputer': lambda s: s.kind == 1, 'BaseImputer': lambda s: True,
+}
